@@ -1,264 +1,4 @@
 package c12
 
-// Pinned deviations (see findings_test.go): "<type>|<operator group>|<failure kind>", with the
-// smallest example seen when the list was produced (VERIF_C12_COLLECT=1 on the unchanged tree,
-// then reviewed). Operator groups: selfdescribed-null = a value replaced by 55799(null) (the
-// self-described-CBOR tag, which every decoder strips, around null: the 4-byte input d9d9f7f6 at
-// top level); null-field = a value replaced by null / undefined; missing-field = a map entry
-// removed (a0 at top level); wrong-type-field = a value replaced by an empty array / map / byte
-// string or by 0; selfdescribed-wrap = a value wrapped in tag 55799; array-length = an array
-// truncated / extended by one element; altered-value = a leaf value altered (bit flip, zeroed,
-// +-1, copied from another field or message). Failure kinds: panic = the decoder panics;
-// invalid-object = the decoder returns an object that violates a rule of its constructor;
-// not-reencodable = the accepted object cannot be encoded / its encoding is refused or unstable.
-var pinned = []string{
-	"bls.ProofOfPossession|missing-field|panic", // e.g. dropkey@/v a0
-	"bls.ProofOfPossession|null-field|panic", // e.g. null@/v a16176f6
-	"bls.ProofOfPossession|selfdescribed-null|panic", // e.g. selfdescribed-null@ d9d9f7f6
-	"bls.ProofOfPossession|wrong-type-field|panic", // e.g. emptymap@ a0
-	"bls.PublicKey|missing-field|invalid-object", // e.g. dropkey@/V a0
-	"bls.PublicKey|null-field|invalid-object", // e.g. null@/V a16156f6
-	"bls.PublicKey|selfdescribed-null|invalid-object", // e.g. selfdescribed-null@ d9d9f7f6
-	"bls.PublicKey|selfdescribed-null|panic", // e.g. selfdescribed-null@/V a16156d9d9f7f6
-	"bls.PublicKey|wrong-type-field|invalid-object", // e.g. emptymap@ a0
-	"bls.PublicMaterial|selfdescribed-null|panic", // e.g. selfdescribed-null@/base a16462617365d9d9f7f6
-	"bls.Shard|null-field|panic", // e.g. null@/base/publicMaterial a16462617365a2657368..657269616cf6(87)
-	"bls.Shard|selfdescribed-null|panic", // e.g. selfdescribed-null@/base a16462617365d9d9f7f6
-	"bls.Signature|missing-field|panic", // e.g. hostile@empty-map a0
-	"bls.Signature|null-field|panic", // e.g. null@/v a26176f663706f70a161..fcc9dcf48ca1(126)
-	"bls.Signature|selfdescribed-null|panic", // e.g. selfdescribed-null@ d9d9f7f6
-	"bls.Signature|selfdescribed-wrap|panic", // e.g. selfdescribed@/pop a26176a16f636f6d7072..6f70d9d9f7f6(78)
-	"bls.Signature|wrong-type-field|panic", // e.g. emptymap@ a0
-	"bls12381.BaseFieldElementG1|selfdescribed-null|panic", // e.g. selfdescribed-null@ d9d9f7f6
-	"bls12381.BaseFieldElementG2|selfdescribed-null|panic", // e.g. selfdescribed-null@ d9d9f7f6
-	"bls12381.PointG1|selfdescribed-null|panic", // e.g. selfdescribed-null@ d9d9f7f6
-	"bls12381.PointG2|selfdescribed-null|panic", // e.g. selfdescribed-null@ d9d9f7f6
-	"bls12381.Scalar|selfdescribed-null|panic", // e.g. selfdescribed-null@ d9d9f7f6
-	"canetti/canetti.CommitmentMessage|selfdescribed-null|panic", // e.g. selfdescribed-null@/X a56141a16161a16f636f..696e67494403(141)
-	"canetti/canetti.Round2Broadcast|selfdescribed-null|panic", // e.g. selfdescribed-null@/Message/X a2615558203070515f56..696e67494402(186)
-	"canetti/canetti.Round2P2P|selfdescribed-null|panic", // e.g. selfdescribed-null@/Share a1655368617265d9d9f7f6
-	"canetti/canetti.Round3Broadcast|selfdescribed-null|panic", // e.g. selfdescribed-null@/Psi/Z/z a163507369a36141a161..617ad9d9f7f6(92)
-	"cnf.CNF|selfdescribed-null|panic", // e.g. selfdescribed-null@ d9d9f7f6
-	"curve25519.Point|selfdescribed-null|panic", // e.g. selfdescribed-null@ d9d9f7f6
-	"curve25519.PrimeSubGroupPoint|selfdescribed-null|panic", // e.g. selfdescribed-null@ d9d9f7f6
-	"dhc.ExtendedPrivateKey|missing-field|panic", // e.g. dropkey@/s a1647365656458201455..c8a4c76ccbf6(40)
-	"dhc.ExtendedPrivateKey|null-field|panic", // e.g. null@/s a26173f6647365656458..c8a4c76ccbf6(43)
-	"dhc.ExtendedPrivateKey|selfdescribed-null|panic", // e.g. selfdescribed-null@/s a26173d9d9f7f6647365..c8a4c76ccbf6(46)
-	"dkls23.PartialSignature|selfdescribed-null|panic", // e.g. selfdescribed-null@ d9d9f7f6
-	"dkls23.Shard|null-field|panic", // e.g. null@/publicMaterial a2657368617265a26269..657269616cf6(81)
-	"dkls23.Shard|selfdescribed-null|panic", // e.g. selfdescribed-null@ d9d9f7f6
-	"dkls23/signing_bbot.Round3P2P|selfdescribed-null|panic", // e.g. selfdescribed-null@/psi a463707369d9d9f7f665..c55fdc3a7102(77238)
-	"dkls23/signing_softspoken.Round4P2P|selfdescribed-null|panic", // e.g. selfdescribed-null@/psi a463707369d9d9f7f665..060236e9ec0e(94998)
-	"ecdsa.PublicKey|missing-field|panic", // e.g. hostile@empty-map a0
-	"ecdsa.PublicKey|null-field|panic", // e.g. null@/publicKey a1697075626c69634b6579f6
-	"ecdsa.PublicKey|selfdescribed-null|panic", // e.g. selfdescribed-null@ d9d9f7f6
-	"ecdsa.PublicKey|wrong-type-field|panic", // e.g. emptymap@ a0
-	"ecdsa.Signature|missing-field|panic", // e.g. dropkey@/r a26173a16a6669656c64..62ee10617600(52)
-	"ecdsa.Signature|null-field|panic", // e.g. null@/r a36172f66173a16a6669..62ee10617600(55)
-	"ecdsa.Signature|selfdescribed-null|panic", // e.g. selfdescribed-null@ d9d9f7f6
-	"ecdsa.Signature|wrong-type-field|panic", // e.g. emptymap@ a0
-	"edwards25519.BaseFieldElement|selfdescribed-null|panic", // e.g. selfdescribed-null@ d9d9f7f6
-	"edwards25519.Point|selfdescribed-null|panic", // e.g. selfdescribed-null@ d9d9f7f6
-	"edwards25519.PrimeSubGroupPoint|selfdescribed-null|panic", // e.g. selfdescribed-null@ d9d9f7f6
-	"edwards25519.Scalar|selfdescribed-null|panic", // e.g. selfdescribed-null@ d9d9f7f6
-	"elgamal.Ciphertext|array-length|panic", // e.g. truncate@/v/components[] a16176a16a636f6d706f..25981bd24958(68)
-	"elgamal.Ciphertext|missing-field|panic", // e.g. dropkey@/v/components a16176a0
-	"elgamal.Ciphertext|null-field|panic", // e.g. null@/v/components a16176a16a636f6d706f6e656e7473f6
-	"elgamal.Ciphertext|selfdescribed-null|panic", // e.g. selfdescribed-null@ d9d9f7f6
-	"elgamal.Ciphertext|wrong-type-field|panic", // e.g. emptymap@/v a16176a0
-	"elgamal.Nonce|selfdescribed-null|panic", // e.g. selfdescribed-null@ d9d9f7f6
-	"elgamal.Plaintext|selfdescribed-null|panic", // e.g. selfdescribed-null@ d9d9f7f6
-	"elgamal.PublicKey|selfdescribed-null|panic", // e.g. selfdescribed-null@ d9d9f7f6
-	"elgamal.SecretKey|selfdescribed-null|panic", // e.g. selfdescribed-null@ d9d9f7f6
-	"feldman.LiftedShare|selfdescribed-null|panic", // e.g. selfdescribed-null@ d9d9f7f6
-	"feldman.VerificationVector|selfdescribed-null|panic", // e.g. selfdescribed-null@ d9d9f7f6
-	"fischlin.Proof|selfdescribed-null|panic", // e.g. selfdescribed-null@/z/*/z a3616190a16161a16f63..a587f06da020(1680)
-	"fs/zkmodule.Proof|selfdescribed-null|panic", // e.g. selfdescribed-null@/Z/z a36141a16161a16f636f..617ad9d9f7f6(87)
-	"gennaro/gennaro.Round1Broadcast|selfdescribed-null|panic", // e.g. selfdescribed-null@/verificationVector a26570726f6f66590160..6f72d9d9f7f6(385)
-	"gennaro/gennaro.Round1Unicast|selfdescribed-null|panic", // e.g. selfdescribed-null@/share a1657368617265d9d9f7f6
-	"gennaro/gennaro.Round2Broadcast|selfdescribed-null|panic", // e.g. selfdescribed-null@/verificationVector a26570726f6f665881a3..6f72d9d9f7f6(161)
-	"hierarchical.HierarchicalConjunctiveThreshold|selfdescribed-null|panic", // e.g. selfdescribed-null@ d9d9f7f6
-	"hjky/hjky.Round1Broadcast|selfdescribed-null|panic", // e.g. selfdescribed-null@/verificationVector a172766572696669636174696f6e566563746f72d9d9f7f6
-	"hjky/hjky.Round1P2P|selfdescribed-null|panic", // e.g. selfdescribed-null@/zeroShare a1697a65726f5368617265d9d9f7f6
-	"indcpacom.CommitmentKey|missing-field|panic", // e.g. dropkey@/encryption_key/group@5016/n a16e656e637279707469..7570d91398a0(27)
-	"indcpacom.CommitmentKey|null-field|panic", // e.g. null@/encryption_key/group@5016 a16e656e637279707469..7570d91398f6(27)
-	"indcpacom.CommitmentKey|selfdescribed-null|panic", // e.g. selfdescribed-null@ d9d9f7f6
-	"indcpacom.CommitmentKey|wrong-type-field|panic", // e.g. emptymap@/encryption_key/group@5016 a16e656e637279707469..7570d91398a0(27)
-	"indcpacom.Commitment|missing-field|panic", // e.g. dropkey@/c/c@5017/n a16163a16163d91399a2..c73bd33f4e11(875)
-	"indcpacom.Commitment|null-field|panic", // e.g. null@/c/c@5017 a16163a16163d91399f6
-	"indcpacom.Commitment|selfdescribed-null|panic", // e.g. selfdescribed-null@ d9d9f7f6
-	"indcpacom.Commitment|wrong-type-field|panic", // e.g. emptymap@/c/c a16163a16163a0
-	"indcpacom.Message|selfdescribed-null|panic", // e.g. selfdescribed-null@ d9d9f7f6
-	"indcpacom.Witness|missing-field|panic", // e.g. dropkey@/s/r@5013/v a16173a16172d91395a1..d44f23b14a17(182)
-	"indcpacom.Witness|null-field|panic", // e.g. null@/s/r@5013 a16173a16172d91395f6
-	"indcpacom.Witness|selfdescribed-null|panic", // e.g. selfdescribed-null@ d9d9f7f6
-	"indcpacom.Witness|wrong-type-field|panic", // e.g. emptymap@/s/r a16173a16172a0
-	"intcom.CommitmentKey|missing-field|panic", // e.g. dropkey@/s@5013/v a26173d91395a16a6172..56682c0b1259(663)
-	"intcom.CommitmentKey|null-field|panic", // e.g. null@/s@5013 a26173d91395f66174d9..56682c0b1259(491)
-	"intcom.CommitmentKey|selfdescribed-null|panic", // e.g. selfdescribed-null@/s a26173d9d9f7f66174d9..56682c0b1259(491)
-	"intcom.CommitmentKey|wrong-type-field|panic", // e.g. emptymap@/s a26173a06174d91395a2..56682c0b1259(488)
-	"intcom.Commitment|missing-field|panic", // e.g. dropkey@/v@5013/v a16176d91395a16a6172..56682c0b1259(179)
-	"intcom.Commitment|null-field|panic", // e.g. null@/v@5013 a16176d91395f6
-	"intcom.Commitment|selfdescribed-null|panic", // e.g. selfdescribed-null@/v a16176d9d9f7f6
-	"intcom.Commitment|wrong-type-field|panic", // e.g. emptymap@/v a16176a0
-	"intcom.Message|selfdescribed-null|panic", // e.g. selfdescribed-null@/m a1616dd9d9f7f6
-	"intcom.TrapdoorKey|altered-value|panic", // e.g. zerobytes@/t@5011/arithmetic@5007/p/natBytes a26174d91393a26176a2..ec59e6861f39(795)
-	"intcom.TrapdoorKey|missing-field|panic", // e.g. dropkey@/t@5011/arithmetic a26174d91393a16176a2..ec59e6861f39(624)
-	"intcom.TrapdoorKey|null-field|panic", // e.g. null@/t@5011 a26174d91393f6666c61..ec59e6861f39(318)
-	"intcom.TrapdoorKey|selfdescribed-null|panic", // e.g. selfdescribed-null@/t a26174d9d9f7f6666c61..ec59e6861f39(318)
-	"intcom.TrapdoorKey|wrong-type-field|panic", // e.g. emptymap@/t a26174a0666c616d6264..ec59e6861f39(315)
-	"intcom.Witness|selfdescribed-null|panic", // e.g. selfdescribed-null@/r a16172d9d9f7f6
-	"isn.Share|selfdescribed-null|panic", // e.g. selfdescribed-null@ d9d9f7f6
-	"k256.BaseFieldElement|selfdescribed-null|panic", // e.g. selfdescribed-null@ d9d9f7f6
-	"k256.Scalar|selfdescribed-null|panic", // e.g. selfdescribed-null@ d9d9f7f6
-	"key_agreement.PrivateKey|missing-field|panic", // e.g. hostile@empty-map a0
-	"key_agreement.PrivateKey|null-field|panic", // e.g. null@/v a261746a4543535644502d4448436176f6
-	"key_agreement.PrivateKey|selfdescribed-null|panic", // e.g. selfdescribed-null@ d9d9f7f6
-	"key_agreement.PrivateKey|wrong-type-field|panic", // e.g. emptymap@ a0
-	"key_agreement.PublicKey|missing-field|panic", // e.g. hostile@empty-map a0
-	"key_agreement.PublicKey|null-field|panic", // e.g. null@/v a261746a4543535644502d4448436176f6
-	"key_agreement.PublicKey|selfdescribed-null|panic", // e.g. selfdescribed-null@ d9d9f7f6
-	"key_agreement.PublicKey|wrong-type-field|panic", // e.g. emptymap@ a0
-	"kw.Share|selfdescribed-null|panic", // e.g. selfdescribed-null@ d9d9f7f6
-	"lindell17.AuxiliaryInfo|missing-field|panic", // e.g. dropkey@/encryptedShares/<key>/*/c@5017/n a36f656e637279707465..20cfa6516729(2466)
-	"lindell17.AuxiliaryInfo|null-field|panic", // e.g. null@/encryptedShares/<key>/*/c@5017 a36f656e637279707465..20cfa6516729(1601)
-	"lindell17.AuxiliaryInfo|selfdescribed-null|panic", // e.g. selfdescribed-null@/paillierSecretKey a36f656e637279707465..20cfa6516729(2436)
-	"lindell17.AuxiliaryInfo|wrong-type-field|panic", // e.g. emptymap@/encryptedShares/<key>/*/c a36f656e637279707465..20cfa6516729(1598)
-	"lindell17.Shard|missing-field|panic", // e.g. dropkey@/auxiliaryInfo/encryptedShares/<key>/*/c@5017/n a26462617365a2657368..f5ecc1e5852d(3058)
-	"lindell17.Shard|null-field|panic", // e.g. null@/base/publicMaterial a26462617365a2657368..f5ecc1e5852d(2718)
-	"lindell17.Shard|selfdescribed-null|panic", // e.g. selfdescribed-null@/base a26462617365d9d9f7f6..f5ecc1e5852d(2641)
-	"lindell17.Shard|wrong-type-field|panic", // e.g. emptymap@/auxiliaryInfo/encryptedShares/<key>/*/c a26462617365a2657368..f5ecc1e5852d(2190)
-	"lindell17/dkg.Round3Broadcast|missing-field|panic", // e.g. dropkey@/Components/*/CKeyPrime/c@5017/n a26a436f6d706f6e656e..2ec45dc4b77b(2120)
-	"lindell17/dkg.Round3Broadcast|null-field|panic", // e.g. null@/Components/*/CKeyPrime/c@5017 a26a436f6d706f6e656e..2ec45dc4b77b(1255)
-	"lindell17/dkg.Round3Broadcast|selfdescribed-null|panic", // e.g. selfdescribed-null@/Components/*/CKeyPrime a26a436f6d706f6e656e..2ec45dc4b77b(1252)
-	"lindell17/dkg.Round3Broadcast|wrong-type-field|panic", // e.g. emptymap@/Components/*/CKeyPrime/c a26a436f6d706f6e656e..2ec45dc4b77b(1252)
-	"lindell17/dkg.Round4P2P|missing-field|panic", // e.g. dropkey@/Components/*/LpdlPrimeRound1Output/CPrime/c@5017/n a26a436f6d706f6e656e..acd0d5d91519(264134)
-	"lindell17/dkg.Round4P2P|null-field|panic", // e.g. null@/Components/*/LpdlPrimeRound1Output/CPrime/c@5017 a26a436f6d706f6e656e..acd0d5d91519(263269)
-	"lindell17/dkg.Round4P2P|selfdescribed-null|panic", // e.g. selfdescribed-null@/Components/*/LpdlPrimeRound1Output/CPrime a26a436f6d706f6e656e..acd0d5d91519(263266)
-	"lindell17/dkg.Round4P2P|wrong-type-field|panic", // e.g. emptymap@/Components/*/LpdlPrimeRound1Output/CPrime/c a26a436f6d706f6e656e..acd0d5d91519(263266)
-	"lindell17/dkg.Round5P2P|missing-field|panic", // e.g. dropkey@/Components/*/LpdlPrimeRound2Output/RangeProverOutput/C1/*/c@5017/n a26a436f6d706f6e656e..c054b1f0592a
-	"lindell17/dkg.Round5P2P|null-field|panic", // e.g. null@/Components/*/LpdlPrimeRound2Output/RangeProverOutput/C1/*/c@5017 a26a436f6d706f6e656e..c054b1f0592a(5230
-	"lindell17/dkg.Round5P2P|selfdescribed-null|panic", // e.g. selfdescribed-null@/Components/*/LpdlPrimeRound2Output/RangeProverOutput/C1/* a26a436f6d706f6e656e..c054b1f059
-	"lindell17/dkg.Round5P2P|wrong-type-field|panic", // e.g. emptymap@/Components/*/LpdlPrimeRound2Output/RangeProverOutput/C1/*/c a26a436f6d706f6e656e..c054b1f0592a(52302
-	"lindell17/dkg.Round6P2P|missing-field|panic", // e.g. dropkey@/LpRound3Output/NthRootsProverOutput/*/z@5017/n a26a436f6d706f6e656e..acd0d5d91519(131782)
-	"lindell17/dkg.Round6P2P|null-field|panic", // e.g. null@/LpRound3Output/NthRootsProverOutput/*/z@5017 a26a436f6d706f6e656e..acd0d5d91519(130917)
-	"lindell17/dkg.Round6P2P|selfdescribed-null|panic", // e.g. selfdescribed-null@/Components/*/LpdlPrimeRound3Output/A a26a436f6d706f6e656e..acd0d5d91519(131825)
-	"lindell17/dkg.Round6P2P|wrong-type-field|panic", // e.g. emptymap@/LpRound3Output/NthRootsProverOutput/*/z a26a436f6d706f6e656e..acd0d5d91519(130914)
-	"lindell17/dkg.Round7P2P|missing-field|panic", // e.g. dropkey@/Components/*/LpdlPrimeRound4Output/RangeProverOutput/R1/<key>/r@5013/v a26a436f6d706f6e656e..b82b7de7
-	"lindell17/dkg.Round7P2P|null-field|panic", // e.g. null@/Components/*/LpdlPrimeRound4Output/RangeProverOutput/R1/<key>/r@5013 a26a436f6d706f6e656e..b82b7de7ad42(
-	"lindell17/dkg.Round7P2P|selfdescribed-null|panic", // e.g. selfdescribed-null@/Components/*/LpdlPrimeRound4Output/RangeProverOutput/R1/<key> a26a436f6d706f6e656e..b82b7d
-	"lindell17/dkg.Round7P2P|wrong-type-field|panic", // e.g. emptymap@/Components/*/LpdlPrimeRound4Output/RangeProverOutput/R1/<key>/r a26a436f6d706f6e656e..b82b7de7ad42(3
-	"lindell17/signing.Round4OutputP2P|missing-field|panic", // e.g. dropkey@/c3/c@5017/n a1626333a16163d91399..1538b96758b1(876)
-	"lindell17/signing.Round4OutputP2P|null-field|panic", // e.g. null@/c3/c@5017 a1626333a16163d91399f6
-	"lindell17/signing.Round4OutputP2P|selfdescribed-null|panic", // e.g. selfdescribed-null@/c3 a1626333d9d9f7f6
-	"lindell17/signing.Round4OutputP2P|wrong-type-field|panic", // e.g. emptymap@/c3/c a1626333a16163a0
-	"lindell22/lindell22.PartialSignature|selfdescribed-null|panic", // e.g. selfdescribed-null@/signature/e a1697369676e61747572..6ede281e6620(120)
-	"lindell22/schnorr.PublicMaterial|selfdescribed-null|panic", // e.g. selfdescribed-null@ d9d9f7f6
-	"lindell22/schnorr.Shard|null-field|panic", // e.g. null@/publicMaterial a2657368617265a26269..657269616cf6(81)
-	"lindell22/schnorr.Shard|selfdescribed-null|panic", // e.g. selfdescribed-null@ d9d9f7f6
-	"lindell22/signing.Round1Broadcast|selfdescribed-null|panic", // e.g. selfdescribed-null@/zeroR1/verificationVector a2667a65726f5231a172..67f588f550f6(81)
-	"lindell22/signing.Round1P2P|selfdescribed-null|panic", // e.g. selfdescribed-null@/zeroR1/zeroShare a1667a65726f5231a1697a65726f5368617265d9d9f7f6
-	"mat.Matrix|selfdescribed-null|panic", // e.g. selfdescribed-null@ d9d9f7f6
-	"mat.ModuleValuedMatrix|selfdescribed-null|panic", // e.g. selfdescribed-null@ d9d9f7f6
-	"mat.SquareMatrix|selfdescribed-null|panic", // e.g. selfdescribed-null@ d9d9f7f6
-	"maurer09/maurer09.Response|selfdescribed-null|panic", // e.g. selfdescribed-null@/z a1617ad9d9f7f6
-	"modular.OddPrimeFactors|altered-value|panic", // e.g. zero@@5007/p/natBytes d9138fa26170a1686e61..d3dbf57278a7(160)
-	"modular.OddPrimeFactors|missing-field|panic", // e.g. hostile@empty-map a0
-	"modular.OddPrimeFactors|null-field|panic", // e.g. null@@5007 d9138ff6
-	"modular.OddPrimeFactors|selfdescribed-null|panic", // e.g. selfdescribed-null@ d9d9f7f6
-	"modular.OddPrimeFactors|wrong-type-field|panic", // e.g. emptymap@ a0
-	"modular.OddPrimeSquareFactors|altered-value|panic", // e.g. zero@@5008/p/natBytes d91390a26170a1686e61..31323d7a21c5(160)
-	"modular.OddPrimeSquareFactors|missing-field|panic", // e.g. hostile@empty-map a0
-	"modular.OddPrimeSquareFactors|null-field|panic", // e.g. null@@5008 d91390f6
-	"modular.OddPrimeSquareFactors|selfdescribed-null|panic", // e.g. selfdescribed-null@ d9d9f7f6
-	"modular.OddPrimeSquareFactors|wrong-type-field|panic", // e.g. emptymap@ a0
-	"modular.SimpleModulus|missing-field|invalid-object", // e.g. hostile@empty-map a0
-	"modular.SimpleModulus|null-field|invalid-object", // e.g. null@@5006 d9138ef6
-	"modular.SimpleModulus|selfdescribed-null|invalid-object", // e.g. selfdescribed-null@ d9d9f7f6
-	"modular.SimpleModulus|selfdescribed-null|panic", // e.g. selfdescribed-null@@5006/modulus d9138ea1676d6f64756c7573d9d9f7f6
-	"modular.SimpleModulus|wrong-type-field|invalid-object", // e.g. emptymap@ a0
-	"mpc.BasePublicMaterial|selfdescribed-null|panic", // e.g. selfdescribed-null@ d9d9f7f6
-	"mpc.BaseShard|null-field|panic", // e.g. null@/publicMaterial a2657368617265a26269..657269616cf6(81)
-	"mpc.BaseShard|selfdescribed-null|panic", // e.g. selfdescribed-null@ d9d9f7f6
-	"msp.MSP|selfdescribed-null|panic", // e.g. selfdescribed-null@ d9d9f7f6
-	"num.Int|selfdescribed-null|panic", // e.g. selfdescribed-null@ d9d9f7f6
-	"num.NatPlus|missing-field|panic", // e.g. dropkey@/natPlus a0
-	"num.NatPlus|null-field|panic", // e.g. null@/natPlus a1676e6174506c7573f6
-	"num.NatPlus|selfdescribed-null|panic", // e.g. selfdescribed-null@ d9d9f7f6
-	"num.NatPlus|wrong-type-field|panic", // e.g. emptymap@ a0
-	"num.Nat|selfdescribed-null|panic", // e.g. selfdescribed-null@ d9d9f7f6
-	"num.Rat|missing-field|panic", // e.g. dropkey@/b/natPlus a26161a163696e74a168..77f78b6162a0(281)
-	"num.Rat|null-field|panic", // e.g. null@/b/natPlus a26161a163696e74a168..74506c7573f6(290)
-	"num.Rat|selfdescribed-null|panic", // e.g. selfdescribed-null@ d9d9f7f6
-	"num.Rat|wrong-type-field|panic", // e.g. emptymap@/b a26161a163696e74a168..77f78b6162a0(281)
-	"num.Uint|selfdescribed-null|panic", // e.g. selfdescribed-null@ d9d9f7f6
-	"num.ZMod|missing-field|panic", // e.g. dropkey@/modulus/natPlus a1676d6f64756c7573a0
-	"num.ZMod|null-field|panic", // e.g. null@/modulus/natPlus a1676d6f64756c7573a1676e6174506c7573f6
-	"num.ZMod|selfdescribed-null|panic", // e.g. selfdescribed-null@ d9d9f7f6
-	"num.ZMod|wrong-type-field|panic", // e.g. emptymap@/modulus a1676d6f64756c7573a0
-	"numct.Int|selfdescribed-null|panic", // e.g. selfdescribed-null@ d9d9f7f6
-	"numct.ModulusBasic|selfdescribed-null|panic", // e.g. selfdescribed-null@ d9d9f7f6
-	"numct.Nat|selfdescribed-null|panic", // e.g. selfdescribed-null@ d9d9f7f6
-	"p256.BaseFieldElement|selfdescribed-null|panic", // e.g. selfdescribed-null@ d9d9f7f6
-	"p256.Point|selfdescribed-null|panic", // e.g. selfdescribed-null@ d9d9f7f6
-	"p256.Scalar|selfdescribed-null|panic", // e.g. selfdescribed-null@ d9d9f7f6
-	"paillier.Ciphertext|missing-field|panic", // e.g. dropkey@/c@5017/n a16163d91399a26176a2..eca4b2d982f1(872)
-	"paillier.Ciphertext|null-field|panic", // e.g. null@/c@5017 a16163d91399f6
-	"paillier.Ciphertext|selfdescribed-null|panic", // e.g. selfdescribed-null@ d9d9f7f6
-	"paillier.Ciphertext|wrong-type-field|panic", // e.g. emptymap@/c a16163a0
-	"paillier.Nonce|missing-field|panic", // e.g. dropkey@/r@5013/v a16172d91395a16a6172..d44f23b14a17(179)
-	"paillier.Nonce|null-field|panic", // e.g. null@/r@5013 a16172d91395f6
-	"paillier.Nonce|selfdescribed-null|panic", // e.g. selfdescribed-null@ d9d9f7f6
-	"paillier.Nonce|wrong-type-field|panic", // e.g. emptymap@/r a16172a0
-	"paillier.Plaintext|selfdescribed-null|panic", // e.g. selfdescribed-null@ d9d9f7f6
-	"paillier.PublicKey|missing-field|panic", // e.g. dropkey@/group@5016/n a16567726f7570d91398a0
-	"paillier.PublicKey|null-field|panic", // e.g. null@/group@5016 a16567726f7570d91398f6
-	"paillier.PublicKey|selfdescribed-null|panic", // e.g. selfdescribed-null@ d9d9f7f6
-	"paillier.PublicKey|wrong-type-field|panic", // e.g. emptymap@/group a16567726f7570a0
-	"paillier.SecretKey|missing-field|panic", // e.g. dropkey@/group@5014/p/natPlus a16567726f7570d91396..4a7abb79c59b(101)
-	"paillier.SecretKey|null-field|panic", // e.g. null@/group@5014/p/natPlus a16567726f7570d91396..4a7abb79c59b(110)
-	"paillier.SecretKey|selfdescribed-null|panic", // e.g. selfdescribed-null@ d9d9f7f6
-	"paillier.SecretKey|wrong-type-field|panic", // e.g. emptymap@/group@5014/p a16567726f7570d91396..4a7abb79c59b(101)
-	"pasta.FpFieldElement|selfdescribed-null|panic", // e.g. selfdescribed-null@ d9d9f7f6
-	"pasta.FqFieldElement|selfdescribed-null|panic", // e.g. selfdescribed-null@ d9d9f7f6
-	"pasta.PallasPoint|selfdescribed-null|panic", // e.g. selfdescribed-null@ d9d9f7f6
-	"pasta.VestaPoint|selfdescribed-null|panic", // e.g. selfdescribed-null@ d9d9f7f6
-	"pedersen.LiftedShare|selfdescribed-null|panic", // e.g. selfdescribed-null@ d9d9f7f6
-	"pedersen.Share|selfdescribed-null|panic", // e.g. selfdescribed-null@ d9d9f7f6
-	"pedersencom.CommitmentKey|selfdescribed-null|panic", // e.g. selfdescribed-null@/g a26167d9d9f7f66168a1..30e6d53f25dc(76)
-	"pedersencom.Commitment|selfdescribed-null|panic", // e.g. selfdescribed-null@/v a16176d9d9f7f6
-	"pedersencom.Message|selfdescribed-null|panic", // e.g. selfdescribed-null@/m a1616dd9d9f7f6
-	"pedersencom.TrapdoorKey|selfdescribed-null|panic", // e.g. selfdescribed-null@/g a26167d9d9f7f6666c61..02c20f2c0915(60)
-	"pedersencom.Witness|selfdescribed-null|panic", // e.g. selfdescribed-null@/r a16172d9d9f7f6
-	"polynomials.ModuleValuedPolynomial|selfdescribed-null|panic", // e.g. selfdescribed-null@ d9d9f7f6
-	"polynomials.Polynomial|selfdescribed-null|panic", // e.g. selfdescribed-null@ d9d9f7f6
-	"randfischlin.Proof|selfdescribed-null|panic", // e.g. selfdescribed-null@/z/*/z a3616190a16161a16f63..7d9abd9c6217(1920)
-	"redistribute/redistribute.Round1Broadcast|selfdescribed-null|panic", // e.g. selfdescribed-null@/ZeroR1/verificationVector a1665a65726f5231a172..6f72d9d9f7f6(32)
-	"redistribute/redistribute.Round1P2P|selfdescribed-null|panic", // e.g. selfdescribed-null@/ZeroR1/zeroShare a1665a65726f5231a1697a65726f5368617265d9d9f7f6
-	"redistribute/redistribute.Round2Broadcast|selfdescribed-null|panic", // e.g. selfdescribed-null@/PrevMSP a467507265764d5350d9..64726f777302(579)
-	"redistribute/redistribute.Round2P2P|selfdescribed-null|panic", // e.g. selfdescribed-null@/NextShareContribution a1754e65787453686172..6f6ed9d9f7f6(27)
-	"rvole/bbot.Round3P2P|selfdescribed-null|panic", // e.g. selfdescribed-null@/eta/* a3626d755820f0680ccc..dd23d76d36a0(77063)
-	"rvole/softspoken.Round2P2P|selfdescribed-null|panic", // e.g. selfdescribed-null@/Eta/* a3624d7558203cdb20b6..443db8b881f2(94823)
-	"schnorrlike.PublicKey|selfdescribed-null|panic", // e.g. selfdescribed-null@ d9d9f7f6
-	"schnorrlike.Signature|selfdescribed-null|panic", // e.g. selfdescribed-null@/e a36165d9d9f7f66172a1..af7457216a4a(109)
-	"shamir.Share|selfdescribed-null|panic", // e.g. selfdescribed-null@ d9d9f7f6
-	"threshold.Threshold|selfdescribed-null|panic", // e.g. selfdescribed-null@ d9d9f7f6
-	"znstar.PaillierGroupElement|altered-value|panic", // e.g. zero@@5015/arithmetic@5008/q/natBytes d91397a26176a2657661..000000000000(739)
-	"znstar.PaillierGroupElement|missing-field|panic", // e.g. hostile@empty-map a0
-	"znstar.PaillierGroupElement|null-field|panic", // e.g. null@@5017 d91399f6
-	"znstar.PaillierGroupElement|selfdescribed-null|panic", // e.g. selfdescribed-null@ d9d9f7f6
-	"znstar.PaillierGroupElement|wrong-type-field|panic", // e.g. emptymap@ a0
-	"znstar.PaillierGroup|missing-field|panic", // e.g. hostile@empty-map a0
-	"znstar.PaillierGroup|null-field|panic", // e.g. null@@5016 d91398f6
-	"znstar.PaillierGroup|selfdescribed-null|panic", // e.g. selfdescribed-null@ d9d9f7f6
-	"znstar.PaillierGroup|wrong-type-field|panic", // e.g. emptymap@ a0
-	"znstar.RSAGroupElement|altered-value|panic", // e.g. zero@@5011/arithmetic@5007/p/natBytes d91393a26176a2657661..31323d7a21c5(481)
-	"znstar.RSAGroupElement|missing-field|panic", // e.g. hostile@empty-map a0
-	"znstar.RSAGroupElement|null-field|panic", // e.g. null@@5011 d91393f6
-	"znstar.RSAGroupElement|selfdescribed-null|panic", // e.g. selfdescribed-null@ d9d9f7f6
-	"znstar.RSAGroupElement|wrong-type-field|panic", // e.g. emptymap@ a0
-	"znstar.RSAGroup|missing-field|panic", // e.g. dropkey@@5012/modulus/natPlus d91394a1676d6f64756c7573a0
-	"znstar.RSAGroup|null-field|panic", // e.g. null@@5010/p/natPlus d91392a26170a1676e61..31323d7a21c5(103)
-	"znstar.RSAGroup|selfdescribed-null|panic", // e.g. selfdescribed-null@@5010/p d91392a26170d9d9f7f6..31323d7a21c5(97)
-	"znstar.RSAGroup|wrong-type-field|panic", // e.g. emptymap@@5012/modulus d91394a1676d6f64756c7573a0
-}
+// Pinned deviations (see findings_test.go): "<type>|<field class>|<operator group>|<failure kind>".
+var pinned = []string{}
